@@ -50,7 +50,7 @@ pub fn registry() -> Vec<Prop> {
         Prop { id: "C18", run: p_c05::run_c18, tape_len: 120, enumerate: None },
         Prop { id: "C19", run: p_c05::run_c19, tape_len: 120, enumerate: None },
         Prop { id: "C06", run: p_c06::run, tape_len: 64, enumerate: Some(p_c06::enumerate) },
-        Prop { id: "C07", run: p_c07::run, tape_len: 200, enumerate: None },
+        Prop { id: "C07", run: p_c07::run, tape_len: 200, enumerate: Some(p_c07::enumerate) },
         Prop { id: "C08", run: p_c08::run, tape_len: 96, enumerate: Some(p_c08::enumerate) },
         Prop { id: "C09", run: p_c09::run, tape_len: 96, enumerate: Some(p_c09::enumerate) },
         Prop { id: "C16", run: p_c16::run, tape_len: 160, enumerate: None },
